@@ -14,7 +14,7 @@ from ..translate import ptable
 
 PID = "C04"
 ALLOWED_AXIOMS = set()
-EXTRA_TARGETS = ["Model/MolRec.vo"]
+EXTRA_TARGETS = ["Model/MolRec.vo", "Model/MolSchema.vo"]
 REQ = ["QV.Common.Outcome", "QV.Model.Nucleus", "QV.Model.ChgMult", "QV.Model.MolRec"]
 
 
@@ -71,12 +71,92 @@ def extract_consts(repo):
     for k, v in want.items():
         if defaults.get(k) != v:
             raise TranslateError(f"from_arrays default {k}={defaults.get(k)!r}, harness assumes {v!r}")
-    return {"window": window, "bo_hi": bo_hi}
+    return {"window": window, "bo_hi": bo_hi, "defaults": defaults}
+
+
+def _startswith_arg(node, what):
+    """molschema.get('schema_name', '').startswith(<str>) -> <str>"""
+    if not (isinstance(node, ast.Call) and isinstance(node.func, ast.Attribute) and node.func.attr == "startswith"
+            and ast.unparse(node.func.value) == "molschema.get('schema_name', '')" and len(node.args) == 1
+            and isinstance(node.args[0], ast.Constant) and isinstance(node.args[0].value, str)):
+        raise TranslateError(f"from_schema.py: unexpected {what}: {ast.unparse(node)[:100]}")
+    return node.args[0].value
+
+
+def _version_arg(node, what):
+    if not (isinstance(node, ast.Compare) and len(node.ops) == 1 and isinstance(node.ops[0], ast.Eq)
+            and ast.unparse(node.left) == "molschema.get('schema_version', '')" and isinstance(node.comparators[0], ast.Constant)
+            and type(node.comparators[0].value) is int):
+        raise TranslateError(f"from_schema.py: unexpected {what}: {ast.unparse(node)[:100]}")
+    return node.comparators[0].value
+
+
+def extract_schema_consts(repo):
+    """from_schema.py: the sniffed schema_name prefixes / versions, and the fixed keywords it hands to
+    contiguize_from_fragment_pattern and from_arrays (fail-closed on any other shape)."""
+    path = os.path.join(repo, "qcelemental", "molparse", "from_schema.py")
+    with open(path) as fh:
+        tree = ast.parse(fh.read())
+    fs = _find_fn(tree, "from_schema")
+    ifs = [n for n in fs.body if isinstance(n, ast.If)]
+    if len(ifs) != 2:
+        raise TranslateError(f"from_schema: expected 2 top-level if statements, found {len(ifs)}")
+    sn = ifs[0]
+    t1 = sn.test
+    if not (isinstance(t1, ast.BoolOp) and isinstance(t1.op, ast.And) and len(t1.values) == 2
+            and isinstance(t1.values[0], ast.BoolOp) and isinstance(t1.values[0].op, ast.Or)):
+        raise TranslateError(f"from_schema: unexpected version-1 test {ast.unparse(t1)[:120]}")
+    v1_prefixes = [_startswith_arg(v, "version-1 name test") for v in t1.values[0].values]
+    v1 = _version_arg(t1.values[1], "version-1 test")
+    if ast.unparse(sn.body[0]) != "ms = molschema['molecule']" or len(sn.body) != 1:
+        raise TranslateError("from_schema: version-1 branch is not ms = molschema['molecule']")
+    if not (len(sn.orelse) == 1 and isinstance(sn.orelse[0], ast.If)):
+        raise TranslateError("from_schema: no elif for version 2")
+    s2 = sn.orelse[0]
+    t2 = s2.test
+    if not (isinstance(t2, ast.BoolOp) and isinstance(t2.op, ast.And) and len(t2.values) == 2):
+        raise TranslateError(f"from_schema: unexpected version-2 test {ast.unparse(t2)[:120]}")
+    v2_prefix = _startswith_arg(t2.values[0], "version-2 name test")
+    v2 = _version_arg(t2.values[1], "version-2 test")
+    if ast.unparse(s2.body[0]) != "ms = molschema" or len(s2.body) != 1:
+        raise TranslateError("from_schema: version-2 branch is not ms = molschema")
+    if not (len(s2.orelse) == 1 and isinstance(s2.orelse[0], ast.Raise) and ast.unparse(s2.orelse[0].exc).startswith("ValidationError(")):
+        raise TranslateError("from_schema: unrecognised schema does not raise ValidationError")
+    fp = ifs[1]
+    if ast.unparse(fp.test) != "'fragments' in ms" or ast.unparse(fp.body[0]) != "frag_pattern = ms['fragments']" or \
+            ast.unparse(fp.orelse[0]) != "frag_pattern = [np.arange(len(ms['symbols']))]":
+        raise TranslateError("from_schema: default fragment pattern is not [np.arange(len(symbols))]")
+    calls = {}
+    for n in ast.walk(fs):
+        if isinstance(n, ast.Call) and isinstance(n.func, ast.Name) and n.func.id in ("from_arrays", "contiguize_from_fragment_pattern"):
+            calls[n.func.id] = {k.arg: ast.unparse(k.value) for k in n.keywords}
+    want_c = {"geom": "ms['geometry']", "elea": "ms.get('mass_numbers', None)", "elez": "ms.get('atomic_numbers', None)",
+              "elem": "ms['symbols']", "mass": "ms.get('masses', None)", "real": "ms.get('real', None)",
+              "elbl": "ms.get('atom_labels', None)", "throw_reorder": "True"}
+    if calls.get("contiguize_from_fragment_pattern") != want_c:
+        raise TranslateError(f"from_schema: contiguize_from_fragment_pattern keywords changed: {calls.get('contiguize_from_fragment_pattern')}")
+    fa = calls.get("from_arrays") or {}
+    fixed = {"units": "'Bohr'", "input_units_to_au": "None", "speclabel": "False", "domain": "'qm'", "nonphysical": "nonphysical",
+             "fragment_separators": "dcontig['fragment_separators']", "fragment_charges": "ms.get('fragment_charges', None)",
+             "fragment_multiplicities": "ms.get('fragment_multiplicities', None)", "molecular_charge": "ms.get('molecular_charge', None)",
+             "molecular_multiplicity": "ms.get('molecular_multiplicity', None)", "connectivity": "ms.get('connectivity', None)",
+             "fix_com": "ms.get('fix_com', None)", "fix_orientation": "ms.get('fix_orientation', None)",
+             "fix_symmetry": "ms.get('fix_symmetry', None)"}
+    for k in ("geom", "elea", "elez", "elem", "mass", "real", "elbl"):
+        fixed[k] = f"dcontig['{k}']"
+    for k, v in fixed.items():
+        if fa.get(k) != v:
+            raise TranslateError(f"from_schema: from_arrays keyword {k}={fa.get(k)!r}, model assumes {v}")
+    for k in ("tooclose", "mtol", "zero_ghost_fragments", "missing_enabled_return", "copy"):
+        if k in fa:
+            raise TranslateError(f"from_schema now passes {k} to from_arrays; the model assumes the default")
+    return {"v1_prefixes": v1_prefixes, "v1": v1, "v2_prefix": v2_prefix, "v2": v2}
 
 
 def translate(ctx):
     ptable.generate(ctx.repo)
     c = extract_consts(ctx.repo)
+    sc = extract_schema_consts(ctx.repo)
     import importlib
     import sys
     if ctx.repo not in sys.path:
@@ -88,10 +168,19 @@ def translate(ctx):
     if float(repr(b2a)) != b2a:
         raise TranslateError("bohr2angstroms does not round-trip")
     out = ["(* GENERATED by harness/props/c04.py from qcelemental/molparse/from_arrays.py and qcelemental.constants — do not edit *)",
-           "From Coq Require Import ZArith QArith.",
+           "From Coq Require Import ZArith QArith List String.", "Import ListNotations.",
            f"Definition bohr2angstroms : Q := {cq(Fraction(Decimal(repr(b2a))))}.   (* exact value of the binary64 constant's shortest decimal *)",
            f"Definition iutau_window : Q := {cq(Fraction(c['window']))}.",
-           f"Definition bond_order_max : Q := {cq(Fraction(c['bo_hi']))}.", ""]
+           f"Definition bond_order_max : Q := {cq(Fraction(c['bo_hi']))}.",
+           "(* keyword defaults of from_arrays (what from_schema / Molecule validation run with) *)",
+           f"Definition default_tooclose : Q := {cq(Fraction(c['defaults']['tooclose']))}.",
+           f"Definition default_mtol : Q := {cq(Fraction(c['defaults']['mtol']))}.",
+           f"Definition default_zgf : bool := {cbool(c['defaults']['zero_ghost_fragments'])}.",
+           "(* from_schema.py: schema_name prefixes / schema_version values it recognises *)",
+           f"Definition sniff_v1_prefixes : list string := {clist(sc['v1_prefixes'], cstr)}.",
+           f"Definition sniff_v1_version : Z := {cz(sc['v1'])}.",
+           f"Definition sniff_v2_prefix : string := {cstr(sc['v2_prefix'])}.",
+           f"Definition sniff_v2_version : Z := {cz(sc['v2'])}.", ""]
     coqrun.write_if_changed(os.path.join(coqrun.COQ, "Gen", "MolConsts.v"), "\n".join(out))
     return None
 
@@ -228,9 +317,12 @@ EK = {"Validation": "Validation", "NotAnElement": "NotAnElement", "ValueError": 
 def out_term(out):
     if out[0] != "Ok":
         return f"(Err {EK.get(out[1], 'PyAssertion')})"
-    r = out[1]
+    return "(Ok %s)" % rec_term(out[1])
+
+
+def rec_term(r):
     conn = "None" if r["conn"] is None else "(Some " + clist(r["conn"], lambda t: f"({cz(t[0])}, {cz(t[1])}, {qdec(t[2])})") + ")"
-    return "(Ok (Build_molrec %s %s %s %s %s %s %s %s %s %s %s %s %s %s %s %s %s %s))" % (
+    return "(Build_molrec %s %s %s %s %s %s %s %s %s %s %s %s %s %s %s %s %s %s)" % (
         cstr(r["units"]), copt(r["iutau"], qdec), clist(r["geom"], qdec), clist(r["elea"], cz), clist(r["elez"], cz),
         clist(r["elem"], cstr), clist(r["mass"], qdec), clist(r["real"], cbool), clist(r["elbl"], cstr), clist(r["seps"], cz),
         clist(r["fchg"], cz), clist(r["fmult"], cz), cz(r["chg"]), cz(r["mult"]), cbool(r["fix_com"]), cbool(r["fix_orientation"]),
@@ -924,6 +1016,359 @@ def fragpattern_oracle(T, c):
     return (None, None, obs)
 
 
+# ------------------------------------------------------------------------------------------------
+# stream "schema": QCSchema dictionaries through from_schema and Molecule(**kwargs), compared with Model/MolSchema.v
+# (sniffing, contiguize incl. its fast path, hand-over to from_arrays, Molecule.fragments bookkeeping)
+
+SREQ = REQ + ["QV.Model.MolSchema"]
+NAMEVER = [("qcschema_molecule", 2)] * 14 + [(None, None), ("qcschema_input", 1), ("qc_schema_input", 1), ("qcschema_molecule", 1),
+           ("qcschema_output", 1), ("qcschema", 2), ("qcschema_molecule_v2", 2), ("QCSchema_molecule", 2), ("qcschema_molecule", 3),
+           ("qcschema_molecule", None), (None, 2), ("qc_schema", 2), ("", 1), ("qcschema_molecul", 2), ("qcschema_input", 2), ("xqcschema", 1)]
+
+
+def mutate_pattern(rng, nat, pieces):
+    """fragment index patterns around a valid one: what contiguize must accept untouched or refuse"""
+    kind = rng.choice(["valid", "valid", "valid", "absent", "whole", "offset", "offset", "shifted_multi", "permuted", "interleaved",
+                       "reversed_run", "duplicate", "skip", "empty_fragment", "empty_list", "negative", "gap_single", "short", "long"])
+    if kind == "valid":
+        return kind, [list(p) for p in pieces]
+    if kind == "absent":
+        return kind, None
+    if kind == "whole":
+        return kind, [list(range(nat))]
+    if kind == "offset":           # a single ascending run that does not start at atom 0
+        k = rng.choice([1, 1, 2, 5, -1, -nat, nat])
+        return kind, [[i + k for i in range(nat)]]
+    if kind == "shifted_multi":
+        k = rng.choice([1, -1, 3])
+        return kind, [[i + k for i in p] for p in pieces]
+    if kind == "permuted":
+        ps = [list(p) for p in pieces]
+        if len(ps) > 1:
+            while ps == [list(p) for p in pieces]:
+                rng.shuffle(ps)
+        else:
+            ps = [list(reversed(ps[0]))]
+        return kind, ps
+    if kind == "interleaved":
+        idx = list(range(nat))
+        rng.shuffle(idx)
+        out, k = [], 0
+        for p in pieces:
+            out.append(idx[k:k + len(p)])
+            k += len(p)
+        return kind, out
+    if kind == "reversed_run":
+        return kind, [list(reversed(range(nat)))]
+    if kind == "duplicate":
+        ps = [list(p) for p in pieces]
+        i = rng.randrange(len(ps))
+        ps[i] = ps[i] + [ps[i][-1]] if rng.random() < 0.5 else [ps[i][0]] * len(ps[i])
+        return kind, ps
+    if kind == "skip":
+        ps = [list(p) for p in pieces]
+        ps[-1] = ps[-1][:-1] + [ps[-1][-1] + 1]
+        return kind, ps
+    if kind == "empty_fragment":
+        ps = [list(p) for p in pieces]
+        ps.insert(rng.randrange(len(ps) + 1), [])
+        return kind, ps
+    if kind == "empty_list":
+        return kind, []
+    if kind == "negative":
+        ps = [list(p) for p in pieces]
+        ps[-1] = ps[-1][:-1] + [-1]
+        return kind, ps
+    if kind == "gap_single":
+        return kind, [[2 * i for i in range(nat)]]
+    if kind == "short":
+        return kind, [list(range(max(nat - 1, 0)))] if rng.random() < 0.5 else [list(p) for p in pieces[:-1]]
+    return kind, [list(range(nat + 1))]
+
+
+def gen_schema_case(ctx, T):
+    rng = ctx.rng
+    c = gen_case(ctx, T, schema_like=True, near=(rng.random() < 0.08))
+    nat = len(c["geom"]) // 3
+    pieces = py_pieces(nat, c["seps"]) if c.get("seps") is not None else [list(range(nat))]
+    if len(c["geom"]) % 3 or any(len(p) == 0 for p in pieces) or nat == 0:
+        pieces = [list(range(max(nat, 1)))]
+    kind, frags = mutate_pattern(rng, max(nat, 1), pieces)
+    sname, sver = rng.choice(NAMEVER)
+    sc = {"sname": sname, "sver": sver, "symbols": list(c.get("elem") or []), "geom": list(c["geom"]), "frags": frags, "fkind": kind,
+          "nonphysical": c.get("nonphysical", False)}
+    for k in ("elea", "elez", "mass", "real", "elbl", "fchg", "fmult", "molecular_charge", "molecular_multiplicity",
+              "fix_com", "fix_orientation", "fix_symmetry", "conn"):
+        if c.get(k) is not None:
+            sc[k] = c[k]
+    if frags is None or len(frags) != len(pieces):
+        nfr = 1 if frags is None else len(frags)
+        if rng.random() < 0.7:
+            sc.pop("fchg", None)
+            sc.pop("fmult", None)
+        else:
+            for k in ("fchg", "fmult"):
+                if k in sc:
+                    sc[k] = (list(sc[k]) + [sc[k][-1]] * nfr)[:nfr] if nfr else []
+    if any(x is None for x in sc["symbols"]):
+        sc["symbols"] = [x or "H" for x in sc["symbols"]]
+    return sc
+
+
+def schema_as_arrays(sc):
+    """the from_arrays case a schema dictionary amounts to when its fragment pattern is (or is taken as) contiguous"""
+    nat = len(sc["geom"]) // 3
+    c = {"geom": sc["geom"], "elem": sc["symbols"], "units": "Bohr", "speclabel": False, "nonphysical": sc.get("nonphysical", False)}
+    for k in ("elea", "elez", "mass", "real", "elbl", "fchg", "fmult", "molecular_charge", "molecular_multiplicity",
+              "fix_com", "fix_orientation", "fix_symmetry", "conn"):
+        if sc.get(k) is not None:
+            c[k] = sc[k]
+    fr = sc.get("frags")
+    if fr is None:
+        c["seps"] = []
+    else:
+        cs, acc = [], 0
+        for f in fr:
+            acc += len(f)
+            cs.append(acc)
+        c["seps"] = cs[:-1]
+    return c
+
+
+def schema_dict(sc):
+    body = {"symbols": list(sc["symbols"]), "geometry": [float(x) for x in sc["geom"]]}
+    for k, name in (("elez", "atomic_numbers"), ("elea", "mass_numbers"), ("real", "real"), ("elbl", "atom_labels")):
+        if sc.get(k) is not None:
+            body[name] = list(sc[k])
+    if sc.get("mass") is not None:
+        body["masses"] = [fl(x) for x in sc["mass"]]
+    if sc.get("frags") is not None:
+        body["fragments"] = [list(f) for f in sc["frags"]]
+    for k, name in (("fchg", "fragment_charges"), ("fmult", "fragment_multiplicities"), ("molecular_charge", "molecular_charge"),
+                    ("molecular_multiplicity", "molecular_multiplicity"), ("fix_com", "fix_com"), ("fix_orientation", "fix_orientation"),
+                    ("fix_symmetry", "fix_symmetry")):
+        if sc.get(k) is not None:
+            body[name] = sc[k] if not isinstance(sc[k], list) else list(sc[k])
+    if sc.get("conn") is not None:
+        body["connectivity"] = [(a, b, float(o)) for a, b, o in sc["conn"]]
+    return body
+
+
+def schema_impl(sc):
+    """(from_schema outcome, Molecule(**kwargs).fragments or an error kind or None when Molecule is not comparable)"""
+    from qcelemental.molparse import from_schema
+    from qcelemental.models import Molecule
+    body = schema_dict(sc)
+    if sc.get("sver") == 1:
+        d = {"molecule": body}
+    else:
+        d = dict(body)
+    if sc.get("sname") is not None:
+        d["schema_name"] = sc["sname"]
+    if sc.get("sver") is not None:
+        d["schema_version"] = sc["sver"]
+    try:
+        with contextlib.redirect_stdout(io.StringIO()):
+            out = ("Ok", canon_record(from_schema(d, nonphysical=sc.get("nonphysical", False), verbose=0)))
+    except Exception as e:
+        out = ("Err", ekind_of(e))
+    mol = None
+    plain = (sc.get("sname"), sc.get("sver")) in (("qcschema_molecule", 2), (None, None))
+    if plain and not any(x is None for k in ("fchg", "fmult", "elea", "elez", "mass", "real", "elbl") for x in (sc.get(k) or [])):
+        kw = dict(body)
+        if sc.get("sname") is not None:
+            kw.update(schema_name=sc["sname"], schema_version=sc["sver"])
+        try:
+            with contextlib.redirect_stdout(io.StringIO()):
+                m = Molecule(nonphysical=sc.get("nonphysical", False), **kw)
+            mol = ("Ok", [[int(i) for i in f] for f in m.fragments])
+        except Exception as e:
+            mol = ("Err", ekind_of(e))
+    return out, mol
+
+
+def schema_term(sc):
+    conn = "None" if sc.get("conn") is None else "(Some " + clist(sc["conn"], lambda t: f"({cz(t[0])}, {cz(t[1])}, {qdec(t[2])})") + ")"
+    frags = "None" if sc.get("frags") is None else "(Some " + clist(sc["frags"], lambda f: clist(f, cz)) + ")"
+    return "(Build_schema %s %s %s %s %s %s %s %s %s %s %s %s %s %s %s %s %s %s)" % (
+        copt(sc.get("sname"), cstr), copt(sc.get("sver"), cz), clist(sc["symbols"], cstr), clist(sc["geom"], qdec),
+        ccol(sc.get("elea"), cz), ccol(sc.get("elez"), cz), ccol(sc.get("mass"), qdec), ccol(sc.get("real"), cbool), ccol(sc.get("elbl"), cstr),
+        frags, ccol(sc.get("fchg"), cz), ccol(sc.get("fmult"), cz), copt(sc.get("molecular_charge"), cz),
+        copt(sc.get("molecular_multiplicity"), cz), copt(sc.get("fix_com"), cbool), copt(sc.get("fix_orientation"), cbool),
+        copt(sc.get("fix_symmetry"), cstr), conn)
+
+
+REFUSAL = ("Validation", "NotAnElement", "PydanticValidation")
+
+
+def schema_oracle(T, sc, out, mol):
+    """the property on what from_schema / Molecule did with a schema dictionary; (entry point, message) or None"""
+    nat = len(sc["geom"]) // 3
+    fr = sc.get("frags")
+    contiguous = fr is None or [i for f in fr for i in f] == list(range(nat))
+    for who, o in (("from_schema", out), ("Molecule", mol)):
+        if o is None:
+            continue
+        if o[0] == "Err":
+            if o[1] not in REFUSAL:
+                return (who, f"{who} refuses with {o[1]} instead of a validation error (fragments={fr})")
+        elif not contiguous:
+            return (who, f"{who} accepts a fragment pattern that does not partition the atoms 0..{nat - 1} in order: {fr} (silently taken as one all-atom fragment)")
+    if out[0] == "Ok":
+        bad = oracle(T, schema_as_arrays(sc), out)
+        if bad:
+            return ("from_schema", bad)
+        if sc.get("fchg") is not None and fr is not None and any(len(f) == 0 for f in fr):
+            return ("from_schema", "accepted a pattern with an empty fragment")
+    if mol is not None and mol[0] == "Ok":
+        if [i for f in mol[1] for i in f] != list(range(nat)) or any(len(f) == 0 for f in mol[1]):
+            return ("Molecule", f"Molecule(**kwargs).fragments = {mol[1]} does not partition the atoms 0..{nat - 1} in order")
+    if mol is not None and sc.get("sname") is not None and (mol[0] == "Ok") != (out[0] == "Ok"):
+        return ("Molecule", f"from_schema says {out[0:2] if out[0] == 'Err' else 'Ok'} but Molecule(**kwargs) says {mol[0:2] if mol[0] == 'Err' else 'Ok'}")
+    return None
+
+
+SCHEMA_CORPUS = [
+    {"sname": "qcschema_molecule", "sver": 2, "symbols": ["H", "He"], "geom": ["0", "0", "0", "0", "0", "1.0"], "frags": [[0, 1]], "fkind": "whole"},
+    {"sname": "qcschema_molecule", "sver": 2, "symbols": ["H", "He"], "geom": ["0", "0", "0", "0", "0", "1.0"], "frags": [[0], [1]], "fkind": "valid"},
+    # fixed finding C04-single-fragment-offset (2b49794): the fast path of contiguize never looked where the run starts
+    {"sname": "qcschema_molecule", "sver": 2, "symbols": ["H", "He"], "geom": ["0", "0", "0", "0", "0", "1.0"], "frags": [[5, 6]], "fkind": "offset"},
+    {"sname": None, "sver": None, "symbols": ["H", "He"], "geom": ["0", "0", "0", "0", "0", "1.0"], "frags": [[-1, 0]], "fkind": "offset"},
+    {"sname": "qcschema_molecule", "sver": 2, "symbols": ["H", "He"], "geom": ["0", "0", "0", "0", "0", "1.0"], "frags": [[1, 2]], "fkind": "offset"},
+    {"sname": None, "sver": None, "symbols": ["H", "He"], "geom": ["0", "0", "0", "0", "0", "1.0"], "frags": [], "fkind": "empty_list"},
+    # fixed finding C04-empty-fragment-list-indexerror (361a5b1): must be refused with a validation error
+    {"sname": "qcschema_molecule", "sver": 2, "symbols": ["H", "He"], "geom": ["0", "0", "0", "0", "0", "1.0"], "frags": [], "fkind": "empty_list"},
+    {"sname": "qcschema_molecule", "sver": 2, "symbols": ["H", "He"], "geom": ["0", "0", "0", "0", "0", "1.0"], "frags": [[1], [0]], "fkind": "permuted",
+     "fchg": [1, 0], "fmult": [1, 2]},
+    {"sname": "qcschema_molecule", "sver": 2, "symbols": ["H", "He"], "geom": ["0", "0", "0", "0", "0", "1.0"], "frags": [[1, 0]], "fkind": "reversed_run"},
+    {"sname": "qcschema_molecule", "sver": 2, "symbols": ["H", "He"], "geom": ["0", "0", "0", "0", "0", "1.0"], "frags": [[0, 1], []], "fkind": "empty_fragment"},
+    {"sname": "qcschema_molecule", "sver": 2, "symbols": ["H", "He"], "geom": ["0", "0", "0", "0", "0", "1.0"], "frags": [[]], "fkind": "short"},
+    {"sname": "qcschema_molecule", "sver": 2, "symbols": ["H", "He"], "geom": ["0", "0", "0", "0", "0", "1.0"], "frags": [[0], [0]], "fkind": "duplicate"},
+    {"sname": "qcschema_input", "sver": 1, "symbols": ["H", "He"], "geom": ["0", "0", "0", "0", "0", "1.0"], "frags": None, "fkind": "absent"},
+    {"sname": "qcschema", "sver": 2, "symbols": ["H", "He"], "geom": ["0", "0", "0", "0", "0", "1.0"], "frags": None, "fkind": "absent"},
+    {"sname": "qcschema_molecule", "sver": 2, "symbols": ["H", "He"], "geom": ["0", "0", "0", "0", "0", "1.0"], "frags": [[0], [1]], "fkind": "valid",
+     "mass": ["1.0"]},
+    {"sname": "qcschema_molecule", "sver": 2, "symbols": ["H", "He"], "geom": ["0", "0", "0", "0", "0", "1.0", "2.0"], "frags": [[0], [1]], "fkind": "valid"},
+    {"sname": "qcschema_molecule", "sver": 2, "symbols": ["H", "He", "Li"], "geom": ["0", "0", "0", "0", "0", "1.0", "0", "0", "2.5"],
+     "frags": [[0], [1, 2]], "fkind": "valid", "fchg": [0, 1], "fmult": [2, 1], "molecular_charge": 1, "real": [True, False, True],
+     "elbl": ["_A", "", "x1"], "fix_symmetry": "C2V", "conn": [(2, 1, "1.0")]},
+]
+
+
+def schema_stream(ctx, T, corr):
+    n_s = 12000 if ctx.thorough else 1200
+    sterms, smeta, mterms, mmeta = [], [], [], []
+    k = 0
+    tries = 0
+    while k < len(SCHEMA_CORPUS) + n_s and tries < 20 * (len(SCHEMA_CORPUS) + n_s):
+        tries += 1
+        sc = dict(SCHEMA_CORPUS[k]) if k < len(SCHEMA_CORPUS) else gen_schema_case(ctx, T)
+        try:
+            if not safe_for_exact(T, schema_as_arrays(sc)):
+                continue
+        except Exception:
+            pass
+        k += 1
+        out, mol = schema_impl(sc)
+        corr.count("schema")
+        corr.hit("schema_%s_%s" % (sc["fkind"], out[0] if out[0] == "Ok" else "Err_" + out[1]))
+        if out[0] == "Ok":
+            corr.nontriv(public(sc))
+        bad = schema_oracle(T, sc, out, mol)
+        if bad:
+            corr.failures.append({"stream": "schema", "case": {"schema": public(sc)}, "what": bad[1], "observed": [out, mol], "entry": bad[0],
+                                  "fkind": sc["fkind"]})
+        sterms.append(f"(({schema_term(sc)}, {cbool(sc.get('nonphysical', False))}), {out_term(out)})")
+        smeta.append((sc, out))
+        if mol is not None and (mol[0] == "Ok" or mol[1] in REFUSAL):
+            corr.count("schema_molecule")
+            obs = "None" if mol[0] != "Ok" else "(Some " + clist(mol[1], lambda f: clist(f, cz)) + ")"
+            msc = dict(sc, sname="qcschema_molecule", sver=2)     # Molecule.__init__ fills these in before calling from_schema
+            mterms.append(f"(({schema_term(msc)}, {cbool(sc.get('nonphysical', False))}), {obs})")
+            mmeta.append((msc, mol))
+    bad, errors = coqrun.eval_bad_indices("C04S", SREQ, "", "check_schema", sterms, shard=300, ty="(schema * bool) * outcome molrec")
+    corr.errors.extend(f"schema shard {k}: {e}" for k, e in errors)
+    for b in bad[:8]:
+        sc, out = smeta[b]
+        got, _ = coqrun.eval_terms("C04S", SREQ, "", [f"from_schema {schema_term(sc)} {cbool(sc.get('nonphysical', False))}"])
+        corr.disagreements.append({"stream": "schema", "case": {"schema": public(sc)}, "impl": out, "model": got})
+    bad, errors = coqrun.eval_bad_indices("C04M", SREQ, "", "check_molfrags", mterms, shard=300, ty="(schema * bool) * option (list (list Z))")
+    corr.errors.extend(f"schema/Molecule shard {k}: {e}" for k, e in errors)
+    for b in bad[:8]:
+        sc, mol = mmeta[b]
+        got, _ = coqrun.eval_terms("C04M", SREQ, "", [f"match from_schema {schema_term(sc)} {cbool(sc.get('nonphysical', False))} with Ok m => Some (molecule_fragments {schema_term(sc)} m) | Err _ => None end"])
+        corr.disagreements.append({"stream": "schema_molecule", "case": {"schema": public(sc)}, "impl": mol, "model": got})
+
+
+def roundtrip_terms(c, out):
+    """(dtype, record) -> from_schema(to_schema(record, dtype)) on the implementation, for Bohr records under default settings"""
+    if out[0] != "Ok" or not defaults_case(c) or c.get("nonphysical", False):
+        return []
+    rec = out[1]
+    if rec["units"] != "Bohr" or rec["iutau"] is not None or len(rec["elez"]) == 0:
+        return []
+    from qcelemental.molparse import from_arrays, from_schema, to_schema
+    res = []
+    try:
+        with contextlib.redirect_stdout(io.StringIO()):
+            full = from_arrays(verbose=0, **arrays_kwargs(record_kwargs(c, rec)))
+            for dtype in (1, 2):
+                back = ("Ok", canon_record(from_schema(to_schema(full, dtype=dtype), verbose=0)))
+                res.append(f"(({cz(dtype)}, {rec_term(rec)}), {out_term(back)})")
+    except Exception:
+        return []      # reported by schema_checks
+    return res
+
+
+# ------------------------------------------------------------------------------------------------
+# stream "massedge": user masses at a nuclide mass +- (mtol + d), d from -1e-5 to +2e-5 — where offering a mass number
+# from a mass (offer_mass_value) and checking a mass against a mass number (offer_mass_number) must use the same window,
+# or an accepted record is refused when it is fed back
+
+EDGE_D = ["-0.00001", "-0.000001", "-0.000000001", "0", "0.000000001", "0.000001", "0.000005", "0.00001", "0.00002"]
+EDGE_NUCLIDES = [("H", 1), ("H", 2), ("C", 12), ("C", 13), ("O", 16), ("Cl", 37), ("Co", 59), ("Hg", 202), ("U", 238), ("He", 4), ("Li", 7), ("Br", 81)]
+
+
+def gen_massedge(ctx, T):
+    rng = ctx.rng
+    nat = rng.choice([1, 2, 2, 3])
+    schema_like = rng.random() < 0.5
+    mtol = "0.001" if schema_like or rng.random() < 0.6 else rng.choice(["0.0001", "0.01", "0.002"])
+    sites = rng.sample([(x, y, z) for x in range(-1, 2) for y in range(-1, 2) for z in range(-1, 2)], nat)
+    c = {"geom": [coord(rng, v) for st in sites for v in st], "speclabel": False if schema_like else rng.random() < 0.5,
+         "units": "Bohr" if schema_like else rng.choice(["Angstrom", "Bohr"]), "mtol": mtol, "tooclose": "0.1"}
+    els, masses, As, safe = [], [], [], True
+    for _ in range(nat):
+        if rng.random() < 0.8:
+            el, a = rng.choice(EDGE_NUCLIDES)
+        else:
+            el = rng.choice(T["E"][1:])
+            a = rng.choice(sorted(T["iso"][el]))
+        t = Decimal(T["iso"][el][a])
+        if rng.random() < 0.85:
+            d = Decimal(rng.choice(EDGE_D))
+            m = t + rng.choice([1, -1]) * (Decimal(mtol) + d)
+            if abs(d) < Decimal("0.000001"):
+                safe = False          # within 1e-9 of the window edge: exact and binary64 arithmetic may differ
+        else:
+            m = t
+        if m <= 0:
+            m = t
+        els.append(el)
+        masses.append(c06.fmt_mass(m))
+        As.append(a)
+    if schema_like or rng.random() < 0.6:
+        c["elem"] = [c06.rand_case_sym(rng, e) for e in els]
+    else:
+        c["elez"] = [T["e2z"][e] for e in els]
+    c["mass"] = masses
+    if rng.random() < 0.35:
+        c["elea"] = list(As)
+    if nat >= 2 and rng.random() < 0.3:
+        c["seps"] = [1]
+    return c, safe, schema_like
+
+
 CORPUS = [
     {"geom": ["0", "0", "0", "0", "0", "1.0"], "elez": [1, 8], "molecular_charge": 1},
     {"geom": ["0", "0", "0", "0", "0", "1.0"], "elez": [1, 1], "elem": ["H", "He"]},
@@ -1001,7 +1446,18 @@ def correspond(ctx):
         if safe_for_exact(T, c):
             cases.append(("schema_like", c))
             k += 1
-    terms, meta = [], []
+    n_edge = 6000 if ctx.thorough else 600
+    unsafe = set()
+    for k in range(n_edge):
+        c, safe, sl = gen_massedge(ctx, T)
+        if not geom_safe(c):
+            continue
+        cases.append(("schema_like" if sl else "massedge", c))
+        if safe:
+            safe = all(c06.min_edge_distance(T, atom_case(c, k)) >= SLACK for k in range(len(c["geom"]) // 3))
+        if not safe:
+            unsafe.add(id(c))
+    terms, meta, rterms, rmeta = [], [], [], []
     for stream, c in cases:
         out = impl_from_arrays(c)
         corr.count(stream)
@@ -1026,8 +1482,17 @@ def correspond(ctx):
             corr.count("fed_back")
         if bad:
             corr.failures.append({"stream": "oracle", "case": {"input": public(c)}, "what": bad, "observed": out, "entry": where})
-        terms.append(f"({raw_term(c)}, {out_term(out)})")
-        meta.append((stream, c, out))
+        if id(c) not in unsafe:
+            terms.append(f"({raw_term(c)}, {out_term(out)})")
+            meta.append((stream, c, out))
+        else:
+            corr.count("massedge_exact_edge_oracle_only")
+        if not bad and id(c) not in unsafe and len(rterms) < (6000 if ctx.thorough else 700):
+            rt = roundtrip_terms(c, out)
+            if rt:
+                corr.count("schema_roundtrip", len(rt))
+                rterms.extend(rt)
+                rmeta.extend([(c, out)] * len(rt))
     # fragment patterns through from_schema / Molecule (implementation only)
     n_fp = 12000 if ctx.thorough else 1200
     for k in range(len(FRAG_CORPUS) + n_fp):
@@ -1040,6 +1505,13 @@ def correspond(ctx):
         if bad:
             corr.failures.append({"stream": "fragpattern", "case": {"input": public(c)}, "what": bad, "observed": obs, "entry": where})
     corr.sample({"input": public(cases[0][1]), "output": impl_from_arrays(cases[0][1])})
+    schema_stream(ctx, T, corr)
+    bad, errors = coqrun.eval_bad_indices("C04R", SREQ, "", "check_roundtrip", rterms, shard=300, ty="(Z * molrec) * outcome molrec")
+    corr.errors.extend(f"roundtrip shard {k}: {e}" for k, e in errors)
+    for b in bad[:8]:
+        c, out = rmeta[b]
+        corr.disagreements.append({"stream": "schema_roundtrip", "case": {"input": public(c)}, "impl": "from_schema(to_schema(record)) on the implementation",
+                                   "model": "Model/MolSchema.v from_schema (to_schema dtype record) differs"})
     ctx.log(f"{len(terms)} cases through the implementation; evaluating the model")
     bad, errors = coqrun.eval_bad_indices("C04", REQ, "", "check_case", terms, shard=350, ty="raw * outcome molrec")
     corr.errors.extend(f"shard {k}: {e}" for k, e in errors)
@@ -1049,6 +1521,14 @@ def correspond(ctx):
         corr.disagreements.append({"stream": stream, "case": {"input": public(c)}, "impl": out, "model": got})
     corr.exhaustive = False
     return corr
+
+
+def judge_schema(T, sc):
+    if sc.get("conn") is not None:
+        sc["conn"] = [tuple(t) for t in sc["conn"]]
+    out, mol = schema_impl(sc)
+    bad = schema_oracle(T, sc, out, mol)
+    return [out, mol], (bad[1] if bad else None), (bad[0] if bad else "from_schema")
 
 
 def judge(T, c):
@@ -1072,6 +1552,12 @@ def search(ctx, corr, reasons):
     for d in corr.disagreements:
         if repr(d["case"]) in seen:
             continue
+        if "schema" in d["case"]:
+            out, bad, where = judge_schema(T, dict(d["case"]["schema"]))
+            if bad:
+                found.append({"stream": "search", "case": d["case"], "what": bad, "observed": out, "entry": where,
+                              "fkind": d["case"]["schema"].get("fkind")})
+            continue
         out, bad, where = judge(T, d["case"]["input"])
         if bad:
             found.append({"stream": "search", "case": d["case"], "what": bad, "observed": out, "entry": where})
@@ -1080,6 +1566,10 @@ def search(ctx, corr, reasons):
 
 def replay(ctx, rp):
     T = c06.table(ctx)
+    if "schema" in rp["case"]:
+        sc = dict(rp["case"]["schema"])
+        out, bad, where = judge_schema(T, sc)
+        return {"schema": sc, "implementation": out, "oracle": bad, "entry_point": where, "fails": bool(bad)}
     c = rp["case"]["input"]
     if c.get("conn") is not None:
         c["conn"] = [tuple(t) for t in c["conn"]]
@@ -1096,14 +1586,15 @@ KNOWN = {
 TRUSTED = [
     "hand-written model coq/Model/MolRec.v of molparse.from_arrays (domain 'qm'), built on Model/Nucleus.v (C06) and Model/ChgMult.v (C05), tied by differential execution (this file)",
     "coq/Gen/PTable.v (periodic table) and coq/Gen/MolConsts.v (bohr2angstroms, the 0.05 units window, bond-order bound) regenerated from /repo on every run; from_arrays keyword defaults pinned by the translator",
-    "from_schema / to_schema / Molecule.__init__ are not modelled in Coq: they are exercised on the implementation (Python oracle: same record as from_arrays, fixed point)",
+    "hand-written model coq/Model/MolSchema.v of from_schema (sniffing, contiguize_from_fragment_pattern incl. fast path and reorder, hand-over to from_arrays), to_schema (Bohr records) and the fragment bookkeeping of Molecule.__init__, tied by differential execution (streams schema, schema_molecule, schema_roundtrip); the other Molecule attributes (masses / mass_numbers / real / labels after _filter_defaults, title-casing, rounding) are exercised on the implementation only",
+    "harness/props/c04.py translators: from_schema.py's sniffed prefixes/versions and the fixed keywords it passes on are read from the AST (fail-closed) into coq/Gen/MolConsts.v",
     "numpy (asarray/reshape/split/einsum), pydantic.v1 coercion, CPython float arithmetic: modelled or exercised, not verified; coordinates are 3-decimal values so exact and binary64 screens agree",
 ]
 ASSUMPTIONS = [
     "typed inputs: per-atom columns are flat lists (entries possibly None), separators a list of ints, integer charges/multiplicities, boolean flags; domain 'qm' only (EFP and qmvz are outside the model)",
     "name/comment/provenance are carried through unexamined and are not part of the modelled record",
 ]
-TECHNIQUE = "Coq proof over a hand-written Gallina model (composition of the C05/C06 theorems; induction over atom and separator lists) + differential correspondence + Python mirror of the invariants on all three entry points"
+TECHNIQUE = "Coq proof over hand-written Gallina models of from_arrays and from_schema (composition of the C05/C06 theorems; induction over atom, separator and fragment-pattern lists; constants generated from the source) + differential correspondence + Python mirror of the invariants on all three entry points"
 DESIGN_REF = "DESIGN.md §6 C04"
 LEVEL_TEXT = (
     "Machine-checked (Coq 8.16.1) theorems about Model/MolRec.v (from_arrays, domain 'qm', composed from the C05 and C06 models), "
@@ -1117,16 +1608,33 @@ LEVEL_TEXT = (
     "3n, pair too close, column length, unknown units, units factor, bad split, fragment list lengths, fragment data without "
     "separators, conflicting nuclear data), C04_refusal_classes (from_arrays raises only ValidationError / NotAnElementError; full "
     "since the repair 7b49268 of fixed finding C04-geom-not-3n-valueerror, whose failing input stays in the corpus and as a Coq "
-    "Example). The model is tied to from_arrays.py on every run by exact differential execution on generated "
+    "Example); about Model/MolSchema.v (from_schema): C04_contiguize_accepts and C04_contiguize_partition (for every fragment pattern and "
+    "arrays: an accepted pattern lists 0..nat-1 in order; arrays are never reordered; separators are the cumulative sizes), C04_from_schema_is_from_arrays and C04_from_schema_accepted_invariants (an accepted dictionary is from_arrays "
+    "on its own arrays, so the record invariants hold), C04_from_schema_rejects_unknown_schema, C04_from_schema_refusal_classes "
+    "(only ValidationError / NotAnElementError), C04_molecule_fragments_partition (Molecule.fragments after _filter_defaults and the "
+    "keyword merge list the atoms in order) — the last three are the full statements since the repairs 2b49794 / 361a5b1 of the fixed "
+    "findings C04-single-fragment-offset (fragments [[5,6]] on two atoms was accepted) and C04-empty-fragment-list-indexerror "
+    "(fragments [] raised IndexError), whose failing inputs stay in the schema corpus and as the Coq Example "
+    "C04_ex_old_failing_inputs_refused. "
+    "The models are tied to from_arrays.py on every run by exact differential execution on generated "
     "molecules (incl. malformed ones); the Python mirror of the invariants, the fixed point and the refusal classes runs on the "
     "implementation through from_arrays, to_schema->from_schema (dtype 1, 2) and Molecule(**kwargs), which are also checked to agree "
-    "on schema-expressible raw inputs.")
+    "on schema-expressible raw inputs; QCSchema dictionaries (name/version variants x 19 kinds of fragment pattern x columns) run "
+    "through from_schema and Molecule against Model/MolSchema.v (exact records and Molecule.fragments), accepted Bohr records through "
+    "from_schema(to_schema(.)) against the model, and user masses at nuclide mass +- (mtol + d), d in -1e-5..2e-5, fed back.")
 LEVEL_NOTE = (
-    "Trusted: Coq kernel + vm_compute; the hand-written model (typed inputs; domain 'qm' only: EFP and qmvz dispatch, name/comment/"
+    "Clause map (full text at the top of coq/Props/C04.v): invariants of an accepted record -> C04_accepted_invariants, "
+    "C04_split_partition (from_arrays), C04_from_schema_is_from_arrays + C04_from_schema_accepted_invariants + C04_contiguize_accepts "
+    "(QCSchema), C04_molecule_fragments_partition (Molecule: fragments only; other attributes by oracle on the implementation); "
+    "fixed point -> C04_idempotent for from_arrays; through from_schema(to_schema) and Molecule ONLY differential/oracle (no theorem); "
+    "refusals -> eleven C04_rejects_* / C04_from_schema_rejects_unknown_schema, classes -> C04_refusal_classes, "
+    "C04_from_schema_refusal_classes; 'every accepted fragment pattern partitions the atoms in order' -> "
+    "C04_contiguize_partition (full since 2b49794). "
+    "Trusted: Coq kernel + vm_compute; the hand-written models (typed inputs; domain 'qm' only: EFP and qmvz dispatch, name/comment/"
     "provenance, update_with_error's conflict detection are not modelled; integer charges/multiplicities; exact rationals instead of "
     "binary64 — generators keep coordinates at 3 decimals and masses >= 1e-9 from every decision edge); the translators (PTable, "
     "MolConsts: bohr2angstroms read from qcelemental.constants at run time, 0.05 window / bond-order bound / keyword defaults parsed "
-    "from from_arrays.py, fail-closed); from_schema, to_schema and Molecule.__init__ are NOT modelled in Coq — the theorems speak "
-    "about from_arrays, the other two entry points are covered by the oracle on the implementation only (agreement with from_arrays, "
-    "fixed point); numpy/pydantic/CPython behaviour is modelled or exercised, not verified. The idempotence theorem excludes "
+    "from from_arrays.py, schema prefixes/versions and pass-through keywords parsed from from_schema.py, fail-closed); of "
+    "Molecule.__init__ only the fragment bookkeeping is modelled, to_schema only for Bohr records; the remaining Molecule glue is "
+    "covered by the oracle on the implementation only (agreement with from_arrays, fixed point); numpy/pydantic/CPython behaviour is modelled or exercised, not verified. The idempotence theorem excludes "
     "mtol > 1/4 (see C06-wide-mtol-feedback). No axioms (all theorems closed under the global context).")
